@@ -68,7 +68,7 @@ def coq_make(targets):
             rc, out = run("coq_makefile -f _CoqProject -o Makefile", cwd=COQ)
             if rc != 0:
                 raise Broken("coq_makefile", out)
-        cmd = "timeout 3000 make -j%d %s" % (NCPU, " ".join(targets))
+        cmd = "ulimit -v 24000000; timeout 3000 make -j%d %s" % (NCPU, " ".join(targets))
         rc, out = run(cmd, cwd=COQ, timeout=3100)
         if rc != 0:
             raise Broken("Coq build: " + " ".join(targets), out[-6000:])
